@@ -25,7 +25,7 @@ def const_field(g, comps) -> torch.Tensor:
 
 def check_rep(ctx: Ctx, c: Dict[str, Any]) -> None:
     from deepali.core.flow import denormalize_flow, normalize_flow
-    from deepali.core.grid import Axes
+    from deepali.core.grid import Axes, Grid
     from deepali.data.flow import FlowField, FlowFields
     from deepali.data.image import Image
 
@@ -103,6 +103,26 @@ def check_rep(ctx: Ctx, c: Dict[str, Any]) -> None:
                 bad("FlowFields.sample[same domain]", f"field in {a} axes resampled on a finer grid of the same domain has components {got.tolist()}, expected {exp_c.tolist()}", frm=a)
         except Exception as ex:
             bad("FlowFields.sample[same domain]", f"raised {type(ex).__name__}: {ex}", exc=type(ex).__name__, frm=a)
+        # a batch of two fields sampled on a SEQUENCE of per-field target grids (same shape, different spacing): every field lands on its own
+        # target grid, with its vectors expressed for that grid
+        try:
+            t1 = g.resize(tuple(m + 1 for m in g.size()))
+            t2 = Grid(size=t1.size(), spacing=t1.spacing() * 0.5, center=g.center(), direction=g.direction(), align_corners=g.align_corners())
+            f2 = FlowFields(const_field(g, reps[a]).repeat(2, *([1] * (D + 1))), [g, g], Axes(a))
+            fs = f2.sample([t1, t2])
+            if fs.axes() is not Axes(a) or len(fs.grids()) != 2 or fs.grids()[0] != t1 or fs.grids()[1] != t2:
+                bad("FlowFields.sample[per-field targets]", "result fields do not carry their own target grids", frm=a, what="grids")
+            else:
+                wv32 = torch.tensor([reps["world"]], dtype=torch.float32)
+                for it, tg in enumerate((t1, t2)):
+                    exp_c = tg.transform_vectors(wv32, axes=Axes.WORLD, to_axes=Axes(a))[0]
+                    nn = tuple(sh // 2 for sh in tg.shape)
+                    got = fs.tensor()[(it, slice(None)) + nn]
+                    if max_err(got, exp_c) > TOL * scale:
+                        bad("FlowFields.sample[per-field targets]", f"field {it} in {a} axes sampled on its own target grid has components {got.tolist()}, expected {exp_c.tolist()}",
+                            frm=a, item=it)
+        except Exception as ex:
+            bad("FlowFields.sample[per-field targets]", f"raised {type(ex).__name__}: {ex}", exc=type(ex).__name__, frm=a)
         # warping a world-linear ramp image: out(x) = ramp(x + w), the same for every representation
         try:
             aa = torch.tensor([0.7, -1.3, 0.4][:D], dtype=torch.float64)
